@@ -703,6 +703,29 @@ pub fn run(c: &Case) -> Outcome {
     }
 }
 
+/// libFuzzer entry: bring a decoded case into the domain of `strategy` / `capacity_strategy`
+pub fn fuzz_domain(c: &mut Case) -> bool {
+    c.width %= 4;
+    let bulk = c.ops.iter().any(|o| matches!(o, Op::BulkNodes(_) | Op::BulkEdges(..)));
+    if bulk {
+        // bulk fills belong to the u8 capacity class
+        c.width = 0;
+        c.ops.truncate(40);
+    } else {
+        c.ops.truncate(160);
+    }
+    for o in c.ops.iter_mut() {
+        match o {
+            Op::AddNode(k) => *k %= 3,
+            Op::AddEdge(k, ..) => *k %= 6,
+            Op::SetNode(_, k) | Op::SetEdge(_, k) => *k %= 4,
+            Op::Extend(v) => v.truncate(3),
+            _ => {}
+        }
+    }
+    true
+}
+
 pub fn property() -> Property {
     Property {
         id: "C02",
@@ -713,7 +736,7 @@ pub fn property() -> Property {
         ],
         both_profiles: true,
         subs: vec![
-            sub("stable/history", 240_000, 3_000_000, strategy, run),
+            sub_fuzz("stable/history", 240_000, 3_000_000, strategy, run, fuzz_domain),
             sub("stable/u8-capacity", 8_000, 200_000, capacity_strategy, run),
         ],
     }
